@@ -369,6 +369,12 @@ namespace {
                 if (id == -100) how = 0;
             if (how == 1) probe("consumed_by_sync_wait");
         }
+        // start_detached terminates on an error and swallows stopped: only where the pipeline denotes a value
+        if (how == 2)
+        {
+            if (exp.channel != CH_VALUE) how = 0;
+            if (how == 2) probe("consumed_by_start_detached");
+        }
         c->how = how;
         c->thread = thread;
         c->delay = delay;
@@ -402,6 +408,19 @@ namespace {
                     self.out.nstopped++;
                 }
                 self.finished = true;
+            }
+            else if (self.how == 2)
+            {
+                Outcome* o = &self.out;
+                ex::start_detached(std::move(**sp) | ex::then([o](auto&&... ts) {
+                    AtomicSection a;
+                    VH_CHECK(!o->op_destroyed, "C03.signal_after_destruction", "detached pipeline completed after the end of the run");
+                    o->nvalue++;
+                    int64_t sum = 0;
+                    ((sum += value_of(ts)), ...);
+                    o->value = sum;
+                }));
+                sp->reset();
             }
             else
             {
@@ -594,6 +613,91 @@ namespace {
             e, g_how, thr(r), (int) r.below(3), "when_all(split,split,leaf)");
     }
 
+    void shape_require_started(Rng& r)
+    {
+        add_consumer(ex::require_started(L{&g_leaf[0]} | thenk(0)) | thenk(1), then_exp(then_exp(leaf_exp(0), 0), 1), g_how,
+            thr(r), (int) r.below(3), "require_started");
+    }
+    void shape_let_error_leaf(Rng& r)
+    {
+        // the error of leaf 0 is replaced by whatever leaf 1 completes with
+        Expected e = leaf_exp(0);
+        if (e.channel == CH_ERROR) e = leaf_exp(1);
+        add_consumer(L{&g_leaf[0]} | ex::let_error([](std::exception_ptr&) { return L{&g_leaf[1]}; }) | thenk(2),
+            then_exp(e, 2), g_how, thr(r), (int) r.below(3), "let_error(leaf)");
+    }
+    void shape_let_value_throws(Rng& r)
+    {
+        // the callable of let_value itself throws (flag 3)
+        Expected e = leaf_exp(0);
+        if (e.channel == CH_VALUE)
+        {
+            if (g_throw[3])
+            {
+                e.channel = CH_ERROR;
+                e.err_ids = {103};
+            }
+            else
+                e.value += 2000;
+        }
+        add_consumer(L{&g_leaf[0]} | ex::let_value([](Tok& t) {
+            bool th;
+            {
+                AtomicSection a;
+                th = g_throw[3];
+            }
+            if (th) throw TestError(103);
+            return ex::just(Tok(t.get() + 2000));
+        }),
+            e, g_how, thr(r), (int) r.below(3), "let_value(throws)");
+    }
+    void shape_ensure_started_split(Rng& r)
+    {
+        auto s = ex::split(ex::ensure_started(L{&g_leaf[0]} | thenk(0)));
+        Expected base = then_exp(leaf_exp(0), 0);
+        int n = (int) r.range(1, 3);
+        for (int i = 0; i < n; i++)
+        {
+            auto copy = s;
+            add_consumer(std::move(copy) | ex::then([](Tok const& t) { return Tok(t.get()); }), base, i == 0 ? g_how : 0, thr(r),
+                (int) r.below(4), "split(ensure_started) consumer");
+        }
+    }
+    void shape_split_ensure_started(Rng& r)
+    {
+        // ensure_started(split(...)): the eager start is itself one consumer of the split state
+        auto s = ex::split(L{&g_leaf[0]});
+        auto s2 = s;
+        Expected l0 = leaf_exp(0);
+        add_consumer(ex::ensure_started(std::move(s) | ex::then([](Tok const& t) { return Tok(t.get() + 1); })) | thenk(0),
+            [&] {
+                Expected e = l0;
+                if (e.channel == CH_VALUE) e.value += 1;
+                return then_exp(e, 0);
+            }(),
+            g_how, thr(r), (int) r.below(3), "ensure_started(split)");
+        add_consumer(std::move(s2) | ex::then([](Tok const& t) { return Tok(t.get() + 2); }),
+            [&] {
+                Expected e = l0;
+                if (e.channel == CH_VALUE) e.value += 2;
+                return e;
+            }(),
+            0, thr(r), (int) r.below(4), "split second consumer");
+    }
+    void shape_when_all_nested(Rng& r)
+    {
+        // when_all(when_all(l0, l1) | then, l2 | let_value -> l3)
+        Expected inner = all_exp({leaf_exp(0), leaf_exp(1)});
+        Expected right = leaf_exp(2);
+        if (right.channel == CH_VALUE) right = leaf_exp(3);
+        Expected e = all_exp({inner, right});
+        add_consumer(ex::when_all(ex::when_all(L{&g_leaf[0]}, L{&g_leaf[1]}) |
+                             ex::then([](Tok a, Tok b) { return Tok(a.get() + b.get()); }),
+                         L{&g_leaf[2]} | ex::let_value([](Tok&) { return L{&g_leaf[3]}; })) |
+                ex::then([](Tok a, Tok b) { return Tok(a.get() + b.get()); }),
+            e, g_how, thr(r), (int) r.below(3), "when_all(when_all, let_value)");
+    }
+
     // shapes that need schedulers (runtime)
     void shape_schedule(Rng& r)
     {
@@ -640,9 +744,10 @@ namespace {
     using shape_fn = void (*)(Rng&);
     shape_fn const pure_shapes[] = {shape_then_chain, shape_let_value, shape_let_error, shape_when_all2, shape_when_all3,
         shape_when_all_vector, shape_split, shape_ensure_started, shape_drop_value, shape_split_tuple, shape_drop_op_state,
-        shape_unique_any, shape_any, shape_unpack, shape_split_when_all};
+        shape_unique_any, shape_any, shape_unpack, shape_split_when_all, shape_require_started, shape_let_error_leaf,
+        shape_let_value_throws, shape_ensure_started_split, shape_split_ensure_started, shape_when_all_nested};
     shape_fn const sched_shapes[] = {shape_schedule, shape_continues_on, shape_transfer_just, shape_when_all_sched,
-        shape_split_sched, shape_split, shape_ensure_started, shape_when_all2};
+        shape_split_sched, shape_split, shape_ensure_started, shape_when_all2, shape_ensure_started_split, shape_when_all_nested};
     constexpr int NPURE = sizeof(pure_shapes) / sizeof(pure_shapes[0]);
     constexpr int NSCHED = sizeof(sched_shapes) / sizeof(sched_shapes[0]);
 
@@ -683,7 +788,10 @@ namespace {
             Program p;
             Op s;
             s.v[0] = (int64_t) r.below((uint64_t) nshapes);
-            s.v[1] = r.chance(1, 4) ? 1 : 0;    // sync_wait consumption for the first consumer
+            {
+                uint64_t x = r.below(100);
+                s.v[1] = x < 20 ? 1 : x < 35 ? 2 : 0;    // sync_wait / start_detached consumption for the first consumer
+            }
             s.v[2] = r.range(1, 3);
             p.push_back(s);
             for (int i = 0; i < 4; i++)
@@ -704,7 +812,7 @@ namespace {
         Program const& p = ctx.program;
         auto opv = [&](size_t i, int j) -> int64_t { return i < p.size() ? p[i].v[j] : 0; };
         int shape = (int) (((opv(0, 0) % nshapes) + nshapes) % nshapes);
-        g_how = (int) (opv(0, 1) & 1);
+        g_how = (int) (((opv(0, 1) % 3) + 3) % 3);
         g_nthreads = (int) (opv(0, 2) < 1 ? 1 : opv(0, 2) > 3 ? 3 : opv(0, 2));
         for (int i = 0; i < 4; i++)
         {
